@@ -1,7 +1,6 @@
 (** C18 - switching device or register preserves the program.
     Property theorems only. *)
 From Coq Require Import ZArith List Bool String.
-From Coq Require Import PrimFloat.
 From PV Require Import Model.Base Model.Sched Model.Seq Gen.Switch.
 From PV Require Proofs.SourceTie Proofs.TimingFrame.
 From PV Require Import Proofs.SchedInv Proofs.SeqInv Proofs.SwitchSpec.
@@ -74,8 +73,8 @@ Print Assumptions C18_timing_frame.
 
 (** The hypotheses are satisfiable by devices that differ in their limits. *)
 Theorem C18_timing_frame_example :
-  let s1 := [TimingFrame.tf_chan (TimingFrame.tf_cfg (Some 400) (Some 2%float))] in
-  let s2 := [TimingFrame.tf_chan (TimingFrame.tf_cfg None None)] in
+  let s1 := TimingFrame.tf_s1 in
+  let s2 := TimingFrame.tf_s2 in
   snd (TimingFrame.srun TimingFrame.tf_e1 TimingFrame.tf_prog s1) = Ok tt /\
   snd (TimingFrame.srun TimingFrame.tf_e2 TimingFrame.tf_prog s2) = Ok tt /\
   map ch_slots (fst (TimingFrame.srun TimingFrame.tf_e1 TimingFrame.tf_prog s1)) =
